@@ -114,11 +114,11 @@ fn replay_one(op: &str, args: &str, o: &Opts) -> String {
             Ok(x) => sbdd::run_case(&rsbdd::bdd::BDDEnv::new(), &x),
             Err(e) => format!("(harness-error {e})"),
         },
-        "tok" | "parse" | "eval" => match sx::parse(args) {
+        "tok" | "parse" | "eval" | "sym" | "evalx" | "evalid" => match sx::parse(args) {
             Ok(x) => stext::replay(op, &x),
             Err(e) => format!("(harness-error {e})"),
         },
-        "queens" | "queensbig" | "queenssols" | "sudoku" | "clique" | "cliquemodels" => match sx::parse(args) {
+        "queens" | "queensbig" | "queenshuge" | "queenssols" | "sudoku" | "clique" | "cliquemodels" => match sx::parse(args) {
             Ok(x) => sgen::replay(op, &x, &o.bindir),
             Err(e) => format!("(harness-error {e})"),
         },
@@ -126,11 +126,11 @@ fn replay_one(op: &str, args: &str, o: &Opts) -> String {
             Ok(x) => sdot::replay(op, &x),
             Err(e) => format!("(harness-error {e})"),
         },
-        "hist" | "heap" => match sx::parse(args) {
+        "hist" | "heap" | "histf" => match sx::parse(args) {
             Ok(x) => shist::replay(op, &x),
             Err(e) => format!("(harness-error {e})"),
         },
-        "set" => match sx::parse(args) {
+        "set" | "setw" | "set2" => match sx::parse(args) {
             Ok(x) => sset::replay(&x),
             Err(e) => format!("(harness-error {e})"),
         },
